@@ -109,7 +109,7 @@ def invariant_step(v):
         check('origin-sample-is-zero', And(approx(elem(ifg.x, H // 2, W // 2), 0, 1e-9), approx(elem(ifg.y, H // 2, W // 2), 0, 1e-9)))
 
 
-@harness('C12', 'bounded/operation-histories', kind='bounded', variants=['random-history', 'statistics', 'idempotence', 'filter'],
+@harness('C12', 'bounded/operation-histories', kind='bounded', variants=['random-history', 'statistics', 'idempotence', 'filter', 'degenerate-maps'],
          fuc=['prysm._richdata.RichData.x', 'prysm._richdata.RichData.y', 'prysm._richdata.RichData.r', 'prysm._richdata.RichData.t',
               'prysm.interferogram.Interferogram.fill', 'prysm.interferogram.Interferogram.crop', 'prysm.interferogram.Interferogram.recenter',
               'prysm.interferogram.Interferogram.remove_piston', 'prysm.interferogram.Interferogram.remove_tiptilt',
@@ -212,6 +212,30 @@ def histories(which):
         i32 = I(big.copy(), dx=dx)
         check('float32-with-piston-std', bool(np.isclose(float(U.std(big)), ref.std(), rtol=2e-2) and np.isclose(float(i32.std), ref.std(), rtol=2e-2)))
         check('float32-with-piston-Sa<=std<=PV', bool(float(U.Sa(big)) <= float(U.std(big)) * (1 + 1e-3) and float(U.std(big)) <= float(U.pv(big)) * (1 + 1e-3)))
+    elif which == 'degenerate-maps':
+        # maps whose valid samples lie on one line through the origin (a single row or column of data, a map masked down to the
+        # row through the origin) and maps without lateral calibration (dx = 0, the constructor default): tilt / piston removal
+        # keeps every valid sample valid and finite, and the coordinates stay coherent
+        import warnings
+        kind = str(rng.choice(['column', 'row', 'masked-to-a-row', 'uncalibrated']))
+        if kind == 'column':
+            zz = rng.standard_normal((H, 1))
+        elif kind == 'row':
+            zz = rng.standard_normal((1, W))
+        elif kind == 'masked-to-a-row':
+            zz = np.full((H, W), np.nan)
+            zz[H // 2, :] = rng.standard_normal(W)
+        else:
+            zz = rng.standard_normal((H, W))
+        g = I(zz.copy(), dx=0 if kind == 'uncalibrated' else dx)
+        before = np.isnan(g.data).copy()
+        with warnings.catch_warnings():
+            warnings.simplefilter('ignore')
+            g.remove_piston()
+            g.remove_tiptilt()
+        check('validity-unchanged-by-piston-and-tilt-removal', bool((np.isnan(g.data) == before).all()))
+        check('valid-samples-stay-finite', bool(np.isfinite(g.data[~before]).all()))
+        check('coordinate-shapes', all(a.shape == g.data.shape for a in (g.x, g.y, g.r, g.t)))
     elif which == 'filter':
         # NaN-free maps of every parity through every filter type: the data keep their shape, so do the coordinates
         z2 = rng.standard_normal((H, W)) * 10
